@@ -84,7 +84,8 @@ def _beh(job):
             ops.append(["fix", oid, mode, vr, False, False])
             ops.append(["fix", oid, mode, not vr, False, False])
 
-    enc_list = [[E(x) for x in e] for e in ents]
+    # the entries themselves are tuples or lists (both are "2- and 3-element entries")
+    enc_list = [E(list(e)) if (seed + j) % 3 == 0 else [E(x) for x in e] for j, e in enumerate(ents)]
     singles()
     ops.append(["bulk", enc_list, mode, vr, False])
     ops.append(["bulk", enc_list, mode, not vr, False])
